@@ -1,7 +1,7 @@
 ---------------------------- MODULE Trace_SimDrive ----------------------------
 (* code -> spec: what a client observed on the real SimDrivable (one observation after every client *)
 (* action and after every period of the simulation thread) must be a behaviour of SimDrive.         *)
-(* Dev_LateBusy is the named deviation of the code as it stands (reported as a finding).            *)
+(* Dev_LateBusy is the named deviation of the code before repair 7893dc6 (reported if it comes back) *)
 EXTENDS SimDrive, Json, IOUtils, TLCExt, Sequences
 Traces == JsonDeserialize(IOEnv.TRACE_FILE)
 NT == Len(Traces)
